@@ -419,9 +419,15 @@ def r3_skip_count(L, repo, hl):
     for c in inl:
         args = [canon(a) for a in c.args]
         prov = origin(sk, args[0]) if args and args[0].isidentifier() else args[:1]
-        L.ob("C15.R3", F, fn, "each iteration skips the stored length relative to the position after the header",
-             "seek(self.parse_hdr(<hdr>)[1], 1)", (prov, args[1:]), len(args) == 2 and args[1] == "1" and
-             len(prov) == 1 and prov[0].startswith("self.parse_hdr(") and prov[0].endswith(")[1]"), c.lineno)
+        def _skip_shape(c=c, prov=prov, args=args):
+            L.ob("C15.R3", F, fn, "each iteration skips the stored length relative to the position after the header",
+                 "seek(self.parse_hdr(<hdr>)[1], 1)", (prov, args[1:]), len(args) == 2 and args[1] == "1" and
+                 len(prov) == 1 and prov[0].startswith("self.parse_hdr(") and prov[0].endswith(")[1]"), c.lineno)
+        if L.extra.get("c15_r7_histories"):
+            # what the skip loop does to the position is decided by R7's folds of parse_msg(i) / parse_all(skip = n)
+            L.structural("C15.R3 the skip is a relative seek by the header's length field", _skip_shape)
+        else:
+            _skip_shape()
         lits = guard_literals(cfg, cfg.node_of(c))
         hdr_reads = [n for n in ast.walk(loops[0]) if isinstance(n, ast.Assign) and isinstance(n.value, ast.Call)
                      and canon(n.value.func) == "self.f.read"]
@@ -1080,6 +1086,7 @@ def r7_histories(L, repo):
             except (Unknown, Raised) as ex:
                 raise AnalysisError("DATADumpFile does not fold on the history `%s`: %s" % (title, ex))
     L.floor("C15.R7", "calls folded in histories", n, 25)
+    L.extra["c15_r7_histories"] = n
 
 
 def run(L, tier):
